@@ -143,7 +143,7 @@ Definition table_of (M : cmodel) (c : cls) : table :=
 
 (* ORMatic.__post_init__ + make_all_tables + the template: [order] is wrapped_classes_in_topological_order *)
 Definition gen (M : cmodel) (order : list cls) : schema :=
-  {| s_imports := ["typing"; "krrood.ormatic.custom_types"]
+  {| s_imports := ["typing"; "builtins"; "krrood.ormatic.custom_types"]   (* Type.__module__, int.__module__ (fix b804898), TypeType *)
                   ++ map c_module order
                   ++ flat_map (fun c => flat_map i_imports (table_items M c)) order;
      s_assoc := flat_map (fun c => flat_map i_assoc (table_items M c)) order;
